@@ -49,6 +49,9 @@ def is_real(x):
     return isinstance(x, Fraction)
 
 
+ZERO_DIV_CHECK = True
+
+
 def is_scalar(x):
     return isinstance(x, (SV, int, Fraction, bool)) or isinstance(x, float)
 
@@ -100,7 +103,7 @@ class Ops:
         self.ctx.note_app(name, targs, t)
         return SV(t)
 
-    def binop(self, op, a, b):
+    def binop(self, op, a, b, elementwise=False):
         a = to_frac(a) if isinstance(a, float) else a
         b = to_frac(b) if isinstance(b, float) else b
         # None arithmetic
@@ -115,7 +118,7 @@ class Ops:
         if isinstance(b, Opt):
             b = self.ctx.unwrap(b)
         if isinstance(a, (Vec, Mat)) or isinstance(b, (Vec, Mat)):
-            return self.broadcast(lambda x, y: self.binop(op, x, y), a, b)
+            return self.broadcast(lambda x, y: self.binop(op, x, y, True), a, b)
         if isinstance(a, Inf) or isinstance(b, Inf):
             return self.inf_arith(op, a, b)
         if isinstance(a, str) and isinstance(b, str) and op == 'Add':
@@ -144,6 +147,11 @@ class Ops:
             return mk(ta - tb)
         if op == 'Mult':
             return mk(ta * tb)
+        if op in ('Div', 'FloorDiv', 'Mod') and not elementwise and not self.ctx.spec_mode and ZERO_DIV_CHECK:
+            # python scalars: x / 0 raises (numpy arrays give inf with a warning: element-wise divisions are total here);
+            # the zero case is a path of its own, so 'no undeclared exception' needs a precondition excluding it
+            if self.ctx.truth(mk(tb == 0)):
+                raise self.ctx.pyexc('ZeroDivisionError')
         if op == 'Div':
             return mk(ta / tb)
         if op == 'FloorDiv':
